@@ -2,6 +2,7 @@ import Toodee.Spec.Grid
 import Toodee.Spec.IterAbs
 import Toodee.Properties.C09
 import Toodee.Proofs.RemoveLemmas
+import Toodee.Proofs.DrainRunLemmas
 /-
   C07 — Removing a row or column yields it in order and closes the gap.
 
@@ -335,7 +336,16 @@ theorem C07_remove_row_run (m : Mode) (t : TD α) (h : t.Inv) (i : Nat) (hi : i 
       (d.run w).1 = (Seq.ends (t.rowCells i) w).1 ∧ (d.run w).2.drop.2 = (Seq.ends (t.rowCells i) w).2 ∧
       (d.run w).2.drop.1.Inv ∧ (d.run w).2.drop.1.grid = t.grid.eraseIdx i ∧
       ((d.run w).1 ++ (d.run w).2.drop.2).Perm (t.rowCells i) := by
-  sorry
+  obtain ⟨d, hd, hitems, _⟩ := C07_remove_row m t h i hi
+  have hdrop := C07_remove_row_drop m t h i hi d hd (Seq.ends d.items w).2
+  simp only at hdrop
+  obtain ⟨h1, h2, _, _, _, h6⟩ := hdrop
+  have hic : d.items = t.rowCells i := hitems
+  refine ⟨d, hd, ?_⟩
+  rw [dr_row_run w d]
+  simp only
+  rw [← hic]
+  exact ⟨rfl, h1, h2, h6, h1 ▸ dr_ends_perm w d.items⟩
 
 /-- `remove_col(i)`, any consumption `w` from either end, then drop -/
 theorem C07_remove_col_run (m : Mode) (t : TD α) (h : t.Inv) (i : Nat) (hi : i < t.numCols) (w : List Bool) :
@@ -343,10 +353,38 @@ theorem C07_remove_col_run (m : Mode) (t : TD α) (h : t.Inv) (i : Nat) (hi : i 
       ys = (Seq.ends (t.colCells i) w).1 ∧ dropped = (Seq.ends (t.colCells i) w).2 ∧
       t'.Inv ∧ t'.grid = (if t.numCols = 1 then [] else t.grid.map fun ρ => ρ.eraseIdx i) ∧
       (ys ++ dropped).Perm (t.colCells i) := by
-  sorry
+  obtain ⟨d, hd, hb, hc, hnc, hnr, _, hwf, habs⟩ := C07_remove_col m t h i hi
+  have hwf0 : d.iter.WF t.numRows d.buf.length := by rw [hb]; exact hwf
+  obtain ⟨it', k', hwf', habs', hrun⟩ := dr_col_run m w d t.numRows hwf0
+  rw [hb] at hwf'
+  rw [habs] at habs' hrun
+  obtain ⟨t', dropped, hdrop, hinv, hdr, _, _, _, hgrid⟩ := C07_remove_col_drop m t h i hi
+    { d with iter := it', taken := (Seq.ends ((List.range t.numRows).map fun r => t.pos i r) w).1.reverse ++ d.taken }
+    hb hc hnc hnr k' hwf'
+  simp only at hdr
+  rw [habs'] at hdr
+  -- the column's cells are the cells at the column's positions, all of which are inside the buffer
+  have hsome : ∀ p ∈ (List.range t.numRows).map (fun r => t.pos i r), (t.data[p]?).isSome := by
+    intro p hp
+    rw [← habs] at hp
+    have := rl_col_abs_lt d.iter t.numRows _ hwf p hp
+    simp [this]
+  have hcells : t.colCells i = ((List.range t.numRows).map fun r => t.pos i r).filterMap (t.data[·]?) := by
+    unfold TD.colCells
+    rw [List.filterMap_map]
+    rfl
+  have hends := dr_ends_filterMap (t.data[·]?) w _ hsome
+  rw [← hcells] at hends
+  refine ⟨d, _, _, t', dropped, hd, hrun, hdrop, ?_, ?_, hinv, hgrid, ?_⟩
+  · rw [hends, hb]
+  · rw [hends, hdr]
+  · have := dr_ends_perm w (t.colCells i)
+    rw [hends] at this
+    rw [hdr, hb]
+    exact this
 
 /-- the ideal sequence conserves items along any word -/
-theorem C07_ends_perm {ι : Type} (l : List ι) (w : List Bool) : ((Seq.ends l w).1 ++ (Seq.ends l w).2).Perm l := by
-  sorry
+theorem C07_ends_perm {ι : Type} (l : List ι) (w : List Bool) : ((Seq.ends l w).1 ++ (Seq.ends l w).2).Perm l :=
+  dr_ends_perm w l
 
 end Toodee
